@@ -208,8 +208,13 @@ class RandInfoBuilder(ModelVisitor,RandIF):
                 for s in self._active_order_randset_s:
                     s.add_constraint(c)
             else:
-#                print("TODO: handle no-reference constraint: " + str(c_blk.name))
-                pass
+                # The constraint references no field (e.g. a comparison of
+                # constants, or the sum of an empty list). It still has to
+                # hold, so give it a rand set of its own
+                rs = RandSet()
+                self._randset_m[rs] = len(self._randset_l)
+                self._randset_l.append(rs)
+                rs.add_constraint(c)
         super().visit_constraint_stmt_leave(c)
         
     def visit_constraint_dynref(self, c):
